@@ -241,6 +241,19 @@ Proof.
   - eapply lsc_expr; eauto.
 Qed.
 
+Lemma lvn_binders f : wf_func f = true ->
+  f_params (lvn f) = f_params f /\ incl' (binders_l (f_body (lvn f))) (binders_l (f_body f)).
+Proof.
+  unfold wf_func. intros H. apply andb_prop in H. destruct H as [H Hret]. apply andb_prop in H. destruct H as [Hnd Hsc].
+  apply nodupb_NoDup in Hnd. destruct lvn_wf_all as [_ HQ]. unfold lvn.
+  destruct (lvn_stmts (f_body f) [] []) as [[body vc] bc] eqn:E.
+  assert (HL0 : lsc [] [] (f_params f) (f_params f)) by (split; [intros x Hx; exact Hx | intros u n []]).
+  assert (Hf0 : fresh (binders_l (f_body f)) [] (f_params f)).
+  { split; [eapply NoDup_app_r; eauto|]. intros x Hx. split; [reflexivity|]. intros Hp. eapply (NoDup_app_disj _ _ x Hnd); eauto. }
+  destruct (HQ (f_body f) [] [] (f_params f) (f_params f) body vc bc E Hsc HL0 Hf0) as (_ & _ & _ & A4 & _).
+  split; [reflexivity | exact A4].
+Qed.
+
 Lemma lvn_no_break_both :
   (forall st vc bc, no_break st = true -> no_break_l (olist (fst (fst (lvn_stmt st vc bc)))) = true) /\
   (forall ss vc bc, no_break_l ss = true -> no_break_l (fst (fst (lvn_stmts ss vc bc))) = true).
